@@ -41,8 +41,38 @@ RStrip(s) == IF IsBlank(s) THEN <<>> ELSE SubSeq(s, 1, LastNB(s))
 LStrip(s) == IF IsBlank(s) THEN <<>> ELSE SubSeq(s, FirstNB(s), Len(s))
 StartsWith(s, p) == Len(s) >= Len(p) /\ SubSeq(s, 1, Len(p)) = p
 
+(* Evaluate v once and use it under a name: Bind(v, LAMBDA x : body).  TLC re-evaluates a LET
+   definition at every reference in many contexts (measured: 207 record parses for 9 records);
+   a bound variable of a set constructor holds a value. *)
+Bind(v, Op(_)) == CHOOSE r \in {Op(x) : x \in {v}} : TRUE
+
 (* concatenation of a sequence of texts *)
 Flat(parts) == FoldLeft(LAMBDA acc, p : acc \o p, <<>>, parts)
+
+(* ------------------------------------------------------------------ letter case *)
+AlphaUpper == T("ABCDEFGHIJKLMNOPQRSTUVWXYZ")
+AlphaLower == T("abcdefghijklmnopqrstuvwxyz")
+UpperLetters == {AlphaUpper[k] : k \in 1..26}
+LowerLetters == {AlphaLower[k] : k \in 1..26}
+ToUpperF == [c \in LowerLetters |-> AlphaUpper[CHOOSE k \in 1..26 : AlphaLower[k] = c]]     \* evaluated once
+ToLowerF == [c \in UpperLetters |-> AlphaLower[CHOOSE k \in 1..26 : AlphaUpper[k] = c]]
+UpperChar(c) == IF c \in LowerLetters THEN ToUpperF[c] ELSE c
+LowerChar(c) == IF c \in UpperLetters THEN ToLowerF[c] ELSE c
+UpperText(s) == [i \in DOMAIN s |-> UpperChar(s[i])]                 \* str.upper() on ASCII
+LowerText(s) == [i \in DOMAIN s |-> LowerChar(s[i])]
+Capitalize(s) == [i \in DOMAIN s |-> IF i = 1 THEN UpperChar(s[i]) ELSE LowerChar(s[i])]   \* str.capitalize()
+
+(* ------------------------------------------------------------------ blank-separated tokens *)
+FirstBlankFrom(s, i) == IF \E k \in i..Len(s) : s[k] = " "
+                          THEN CHOOSE k \in i..Len(s) : s[k] = " " /\ \A q \in i..(k - 1) : s[q] # " "
+                          ELSE Len(s) + 1
+RECURSIVE Tokens(_)
+Tokens(s) ==                                                           \* str.split()
+  LET t == LStrip(s) IN
+  IF t = <<>> THEN <<>>
+  ELSE LET e == FirstBlankFrom(t, 1) IN <<SubSeq(t, 1, e - 1)>> \o Tokens(SubSeq(t, e, Len(t)))
+JoinWith(parts, sep) ==
+  FoldLeft(LAMBDA acc, k : IF k = 1 THEN parts[1] ELSE acc \o sep \o parts[k], <<>>, [k \in 1..Len(parts) |-> k])
 
 (* ------------------------------------------------------------------ integers as text *)
 DigitSeq == T("0123456789")
@@ -165,5 +195,7 @@ ASSUME RJust(T("abc"), 2) = T("abc") /\ RJust(T("7"), 3) = T("  7") /\ LJust(T("
 ASSUME Strip(T("  a b ")) = T("a b") /\ Strip(T("   ")) = <<>> /\ Strip(<<>>) = <<>>
 ASSUME ParseInt(T(" -12 ")) = [ok |-> TRUE, val |-> -12] /\ ~ParseInt(T("1 2")).ok /\ ~ParseInt(<<>>).ok
 ASSUME ParseFixed(T(" -12.50"), 3) = [ok |-> TRUE, nan |-> FALSE, units |-> -12500]
+ASSUME Tokens(T("  ab  c d ")) = <<T("ab"), T("c"), T("d")>> /\ Tokens(T("   ")) = <<>>
+ASSUME Capitalize(T("CL")) = T("Cl") /\ UpperText(T("Cl1")) = T("CL1") /\ JoinWith(<<T("a"), T("b")>>, T(" ")) = T("a b")
 ASSUME IntText(-1000) = T("-1000") /\ ZeroPad(7, 3) = T("007") /\ NatVal(T("0420")) = 420
 =============================================================================
